@@ -21,7 +21,7 @@ Section Cyclic.
   Notation xy := (xy_exact feq).
   Notation P := (P F feq).
   Notation Psym := (P_sym F feq feq_sym).
-  Notation Ptrans := (P_trans F feq feq_trans).
+  Notation Ptrans := (P_trans F feq feq_sym feq_trans).
 
   Variable ct : ctype.
   Variable d : vtx F.
@@ -185,3 +185,152 @@ Section Cyclic.
       rewrite <- Z.add_mod_idemp_r by lia. rewrite Eo. rewrite Z.add_mod_idemp_r by lia. reflexivity.
   Qed.
 End Cyclic.
+
+Lemma Forall2_nth_default {A B} (R : A -> B -> Prop) l1 l2 d1 d2 :
+  Forall2 R l1 l2 -> forall i, i < length l1 -> R (nth i l1 d1) (nth i l2 d2).
+Proof.
+  induction 1; simpl; intros i Hi; [lia|]. destruct i; auto. apply IHForall2. lia.
+Qed.
+
+Lemma Forall2_of_nth {A B} (R : A -> B -> Prop) l1 l2 d1 d2 :
+  length l1 = length l2 -> (forall i, i < length l1 -> R (nth i l1 d1) (nth i l2 d2)) -> Forall2 R l1 l2.
+Proof.
+  revert l2; induction l1 as [|a r IH]; intros [|b s] L H; simpl in *; try discriminate; constructor.
+  - apply (H 0). lia.
+  - apply IH; [congruence|]. intros i Hi. apply (H (S i)). lia.
+Qed.
+
+Lemma Forall2_trans_gen {A B C} (R1 : A -> B -> Prop) (R2 : B -> C -> Prop) (R3 : A -> C -> Prop) l1 :
+  forall l2 l3, (forall a b c, In a l1 -> R1 a b -> R2 b c -> R3 a c) ->
+  Forall2 R1 l1 l2 -> Forall2 R2 l2 l3 -> Forall2 R3 l1 l3.
+Proof.
+  induction l1 as [|a r IH]; intros l2 l3 H F1 F2; inversion F1; subst; inversion F2; subst; constructor.
+  - eapply H; simpl; eauto.
+  - eapply IH; eauto. intros; eapply H; simpl; eauto.
+Qed.
+
+Section LineTrans.
+  Variable F : Type.
+  Variable feq : F -> F -> bool.
+  Variable simple : lineT F -> bool.
+  Hypothesis feq_sym : forall a b, feq a b = true -> feq b a = true.
+  Hypothesis feq_trans : forall a b c, feq a b = true -> feq b c = true -> feq a c = true.
+  Notation xy := (xy_exact feq).
+  Notation P := (P F feq).
+  Notation Psym := (P_sym F feq feq_sym).
+  Notation Ptrans := (P_trans F feq feq_sym feq_trans).
+  (* the simplicity oracle cannot tell apart lines whose ordinates are pairwise ==, nor a closed
+     line and its reversal *)
+  Hypothesis simple_eq : forall ct vs ws,
+    Forall2 (veq feq ct) vs ws -> simple (MkLine ct vs) = simple (MkLine ct ws).
+  Hypothesis simple_rev : forall ct vs,
+    ends_eq feq xy (MkLine ct vs) = true -> simple (MkLine ct (rev vs)) = simple (MkLine ct vs).
+
+  Definition ringb (l : lineT F) : bool := is_ring feq simple l && ends_eq feq xy l.
+
+  Lemma P_xy ct a b : P ct a b -> xy a b = true.
+  Proof. unfold ExactEq_proofs.P, coord_eq. rewrite !andb_true_iff. tauto. Qed.
+  Lemma xy_trans a b c : xy a b = true -> xy b c = true -> xy a c = true.
+  Proof. unfold xy_exact. rewrite !andb_true_iff. intros [X Y] [X' Y']. eauto. Qed.
+  Notation xysym := (xy_sym F feq feq_sym).
+
+  Lemma ends_eq_iff ct c d :
+    ends_eq feq xy (MkLine ct c) = true <-> 1 <= length c /\ P ct (nth 0 c d) (nth (length c - 1) c d).
+  Proof.
+    split; [apply ends_eq_nth|]. intros [L H]. unfold ends_eq. simpl.
+    destruct c as [|v0 r]; [simpl in L; lia|]. rewrite (last_is_nth F (v0 :: r) v0).
+    rewrite (nth_indep (v0 :: r) v0 d) by (simpl; lia). exact H.
+  Qed.
+
+  Lemma is_closed_iff ct c d :
+    is_closed feq (MkLine ct c) = true <-> 1 <= length c /\ xy (nth 0 c d) (nth (length c - 1) c d) = true.
+  Proof.
+    unfold is_closed. simpl. destruct c as [|v0 r].
+    - split; [discriminate | simpl; lia].
+    - rewrite (last_is_nth F (v0 :: r) v0), (nth_indep (v0 :: r) v0 d) by (simpl; lia).
+      unfold xy_exact. simpl. split; [intros H; split; [lia | exact H] | tauto].
+  Qed.
+
+  Lemma ringb_rev ct c : ringb (MkLine ct c) = true -> ringb (MkLine ct (rev c)) = true.
+  Proof.
+    unfold ringb, is_ring. rewrite !andb_true_iff. intros [[C Sm] E].
+    destruct c as [|d r]; [discriminate|]. set (c := d :: r) in *.
+    assert (L : 1 <= length c) by (simpl; lia).
+    rewrite simple_rev by exact E.
+    apply (is_closed_iff ct c d) in C. apply (ends_eq_iff ct c d) in E.
+    rewrite (is_closed_iff ct (rev c) d), (ends_eq_iff ct (rev c) d), rev_length.
+    rewrite !rev_nth by lia. replace (length c - S 0) with (length c - 1) by lia.
+    replace (length c - S (length c - 1)) with 0 by lia.
+    destruct C as [_ C], E as [_ E]. split; [split; [split; [lia | apply xysym; exact C] | exact Sm] | split; [lia | apply Psym; exact E]].
+  Qed.
+
+  Lemma ringb_transfer ct c1 c2 :
+    Forall2 (P ct) c1 c2 -> ringb (MkLine ct c2) = true -> ringb (MkLine ct c1) = true.
+  Proof.
+    intros H. pose proof (Forall2_length' _ _ _ H) as L.
+    unfold ringb, is_ring. rewrite !andb_true_iff. intros [[C Sm] E].
+    destruct c1 as [|d r]; [destruct c2; [discriminate | discriminate]|]. set (c1 := d :: r) in *.
+    rewrite (simple_eq ct c1 c2) by exact H.
+    apply (is_closed_iff ct c2 d) in C. apply (ends_eq_iff ct c2 d) in E.
+    rewrite (is_closed_iff ct c1 d), (ends_eq_iff ct c1 d).
+    destruct C as [L2 C], E as [_ E]. rewrite <- L in *.
+    pose proof (Forall2_nth_default _ _ _ d d H 0 ltac:(lia)) as H0.
+    pose proof (Forall2_nth_default _ _ _ d d H (length c1 - 1) ltac:(lia)) as Hl.
+    repeat split; auto.
+    - eapply xy_trans; [apply (P_xy ct); exact H0|]. eapply xy_trans; [exact C|]. apply xysym, (P_xy ct); exact Hl.
+    - eapply Ptrans; [exact H0|]. eapply Ptrans; [exact E|]. apply Psym; exact Hl.
+  Qed.
+
+  Notation leq := (line_eq feq xy simple true).
+
+  (* what lineStringsEq(IgnoreOrder) accepts, on lists *)
+  Definition line_kind ct (c1 c2 : list (vtx F)) : Prop :=
+    Forall2 (P ct) c1 c2 \/ Forall2 (P ct) c1 (rev c2) \/
+    (ringb (MkLine ct c1) = true /\ ringb (MkLine ct c2) = true /\ 2 <= length c1 /\
+     forall d, Aff F feq ct d (length c1 - 1) c1 c2).
+
+  Lemma are_rings_ringb l1 l2 :
+    are_rings F feq xy simple l1 l2 = true <-> ringb l1 = true /\ ringb l2 = true.
+  Proof. unfold are_rings, ringb. rewrite !andb_true_iff. tauto. Qed.
+
+  Lemma line_eq_kind ct c1 c2 :
+    leq (MkLine ct c1) (MkLine ct c2) = true <-> length c1 = length c2 /\ line_kind ct c1 c2.
+  Proof.
+    rewrite line_eq_iff. simpl. split.
+    - intros [L [_ H]]. split; auto. unfold line_kind.
+      destruct H as [H|[_ [H|[R [o [Ho H]]]]]].
+      + left. apply same_curve_id in H; auto.
+      + right; left. apply same_curve_rev in H; auto.
+      + right; right. apply are_rings_ringb in R. destruct R as [R1 R2]. repeat split; auto; try lia.
+        intros d. set (n := length c1) in *.
+        assert (Bm : forall x, x mod (n - 1) < n) by (intros x; pose proof (Nat.mod_upper_bound x (n - 1)); lia).
+        destruct H as [H|H].
+        * assert (H' : forall i, i < n -> P ct (nth i c1 d) (nth ((i + o) mod (n - 1)) c2 d)).
+          { apply (same_curve_nth F feq ct c1 c2 n (fun i => i) (fun i => (i + o) mod (n - 1)) d);
+              [intros; unfold n in *; lia | intros; rewrite <- L; apply Bm | exact H]. }
+          eapply aff_of_rot with (o := o); try lia. intros i Hi. apply H'. lia.
+        * assert (H' : forall i, i < n -> P ct (nth (n - i - 1) c1 d) (nth ((i + o) mod (n - 1)) c2 d)).
+          { apply (same_curve_nth F feq ct c1 c2 n (fun i => n - i - 1) (fun i => (i + o) mod (n - 1)) d);
+              [intros; unfold n in *; lia | intros; rewrite <- L; apply Bm | exact H]. }
+          eapply aff_of_revrot with (o := o); try lia. intros i Hi.
+          replace (S (n - 1) - i - 1) with (n - i - 1) by lia. apply H'. lia.
+    - intros [L K]. repeat split; auto. destruct K as [H|[H|[R1 [R2 [Hn H]]]]].
+      + left. apply same_curve_id; auto.
+      + right. split; auto. left. apply same_curve_rev; auto.
+      + right. split; auto. right. split; [apply are_rings_ringb; auto|].
+        destruct c1 as [|d r]; [simpl in Hn; lia|]. set (c1 := d :: r) in *. set (n := length c1) in *.
+        assert (Ca : closedP F feq ct d (n - 1) c1).
+        { unfold ringb in R1. apply andb_true_iff in R1. destruct R1 as [_ E].
+          apply (ends_eq_iff ct c1 d) in E. apply E. }
+        assert (Hn1 : 1 <= n - 1) by lia.
+        destruct (rot_of_aff F feq feq_sym feq_trans ct d (n - 1) Hn1 c1 c2 Ca (H d)) as [o [Ho Hr]].
+        assert (Bm : forall x, x mod (n - 1) < n) by (intros x; pose proof (Nat.mod_upper_bound x (n - 1)); lia).
+        exists o. split; [lia|]. destruct Hr as [Hr|Hr].
+        * left. apply (same_curve_nth F feq ct c1 c2 n (fun i => i) (fun i => (i + o) mod (n - 1)) d);
+            [intros; unfold n in *; lia | intros; rewrite <- L; apply Bm |].
+          intros i Hi. apply Hr. lia.
+        * right. apply (same_curve_nth F feq ct c1 c2 n (fun i => n - i - 1) (fun i => (i + o) mod (n - 1)) d);
+            [intros; unfold n in *; lia | intros; rewrite <- L; apply Bm |].
+          intros i Hi. replace (n - i - 1) with (S (n - 1) - i - 1) by lia. apply Hr. lia.
+  Qed.
+End LineTrans.
